@@ -4,6 +4,8 @@ import CuqiVerif.Model.RExpr
 import CuqiVerif.Model.C20
 import CuqiVerif.Model.C04
 import CuqiVerif.Model.C04_gaussobj
+import CuqiVerif.Model.C04_eig
+import CuqiVerif.Model.C04_dim
 open CuqiVerif CuqiVerif.Proto CuqiVerif.C04 CuqiVerif.RExpr
 
 /-!
@@ -33,6 +35,12 @@ Line protocol of the C04 driver (one line in, one line out).  Floats are printed
         answers: `ok` | `E:ValueError` | `E:NotImplementedError` | `M:<matrix>` | `R` (the user's own object) | `None`
                  | `f:<logpdf bits>` | `-inf` | `raise` | `nan` | `unsupported` | `-` (no object)
   maxdiminv                                       -> `2000`
+  gausseig <form> <n> <x> <mu> <lam> <Q> <R>      -> `ok <rank> <detCov> <quad>` | `raise` | `nan` | `bad-certificate`
+        eigen branches (dim > MIN_DIM_SPARSE, dense full matrix R); (lam, rows of Q) = eigenpairs of R (cov, prec) resp. R Rᵀ
+  eigeps <spectrum>                               -> `q:<eps>`
+  dim <geometry par_dim or -> <kinds>             -> `dim <n>` | `E:TypeError` | `E:ValueError` | `E:IndexError`
+        kinds (comma separated, one per mutable variable): N None, C callable, S number, L<k> list, A<k> 1-D array,
+        M<m>x<n> 2-D array, Z 0-d array, P<m> sparse matrix with m rows, K<nnz> DOK sparse matrix
 -/
 
 def fmtQ (q : Rat) : String := "q:" ++ fmtRatS q
@@ -308,6 +316,35 @@ def stepGObj (dim : Nat) (mean0 : List Rat) (ops : List String) : String :=
     (acc.1 ++ [a], o')) ([], none)
   " ".intercalate outs
 
+def stepGaussEig (form : Form) (n : Nat) (x mu lam : List Rat) (Q R : QMat.Mat) : String :=
+  if x.length ≠ n || !(mu.length = 1 || mu.length = n) then "raise" else
+  let S := match form with
+    | .cov | .prec => R
+    | _ => QMat.mul R (QMat.transpose R)
+  match eigBranch form n lam Q S R (devOf n x mu) with
+  | .ok r d qd => s!"ok {r} {fmtQ d} {fmtQ qd}"
+  | .raises => "raise"
+  | .nan => "nan"
+  | .badCertificate => "bad-certificate"
+
+def parsePKind (t : String) : Option PKind :=
+  match t.toList with
+  | ['N'] => some .none_
+  | ['C'] => some .callable
+  | ['S'] => some .number
+  | ['Z'] => some .arr0
+  | 'L' :: r => (String.ofList r).toNat?.map .list
+  | 'A' :: r => (String.ofList r).toNat?.map .arr1
+  | 'P' :: r => (String.ofList r).toNat?.map .sparse
+  | 'K' :: r => (String.ofList r).toNat?.map .dok
+  | 'M' :: r =>
+    match (String.ofList r).splitOn "x" with
+    | [m, n] => match m.toNat?, n.toNat? with
+      | some m, some n => some (.arr2 m n)
+      | _, _ => none
+    | _ => none
+  | _ => none
+
 def vecOr (s : String) : Option (List Rat) := if s = "-" then some [] else parseVec s
 
 def step : List String → String
@@ -355,6 +392,22 @@ def step : List String → String
   | ["zerodim", fam] => fmtBool (zeroDimArrayRaises fam)
   | ["mindimsparse"] => toString MIN_DIM_SPARSE
   | ["maxdiminv"] => toString MAX_DIM_INV
+  | ["gausseig", form, n, x, mu, lam, Q, R] =>
+    match Form.ofString form, n.toNat?, parseVec x, parseVec mu, parseVec lam, parseMat Q, parseMat R with
+    | some form, some n, some x, some mu, some lam, some Q, some R => stepGaussEig form n x mu lam Q R
+    | _, _, _, _, _, _, _ => "bad-op"
+  | ["dim", g, kinds] =>
+    match (kinds.splitOn ",").mapM parsePKind with
+    | none => "bad-op"
+    | some ps =>
+      if g = "-" then (resolveDim none ps).toString
+      else match g.toNat? with
+        | some gd => if gd = 0 then "bad-op" else (resolveDim (some gd) ps).toString
+        | none => "bad-op"
+  | ["eigeps", sp] =>
+    match parseVec sp with
+    | some sp => fmtQ (eigEps sp)
+    | none => "bad-op"
   | ["gstored", form, dim, x, mu, st] =>
     match Form.ofString form, dim.toNat?, parseVec x, parseVec mu, parseStored st with
     | some form, some dim, some x, some mu, some st => stepGStored form dim x mu st
